@@ -214,7 +214,7 @@ fn generate(tier: &str, rng: &mut Rng) -> Vec<Case> {
         locality_family(&mut out, rng, &[1024], 3);
     }
     let w = Weights { push: 10, ready: 7, poll: 9, flush: 1, pop: 7, popm: 1, cancel: 7, ccancel: 4, dropk: 1, token: 6, tcancel: 8, gate: 2, pdrop: 1 };
-    let n = if thorough { 20_000 } else { 800 };
+    let n = if thorough { 14_000 } else { 800 };
     for i in 0..n {
         let drv = *rng.pick(&DRIVERS);
         let cap = *rng.pick(&CAPS);
